@@ -103,7 +103,6 @@ A_NoDataLoss == [][NoDataLoss]_mcvars
 A_NoResurrection == [][NoResurrection]_mcvars
 A_NoApplyError == [][NoApplyError]_mcvars
 A_RS_Started == [][RS_Started]_mcvars
-A_RS_StartedByFinish == [][RS_StartedByFinish]_mcvars
 
 MCView == <<vars, log, nSnap, nRestart>>
 =============================================================================
